@@ -101,3 +101,24 @@ func ZZ_C05_lists(a []int) {
 	zzEmitU("err", zzB2U(err != nil))
 	zzEmitU("lists", uint64(zzListLen(p)))
 }
+
+// ZZ_C05_many: a valid frame of shape a (concrete values, many user
+// properties / list elements) is decoded under budgets linear in its length.
+func ZZ_C05_many(a []int) {
+	abs := zzGen(zzShapeOf(a))
+	body := zzRefBody(abs)
+	n := len(body)
+	p := zzNew(abs.typ)
+	if abs.typ == 3 {
+		p = &Publish{}
+		body = zzRefBody(func() *zzAbs { x := *abs; x.hflags = 0; x.pid = 0; return &x }())
+		n = len(body)
+	}
+	zzSetBudget(zzStepsPerByte*(n+4), zzAllocPerByte*(n+4)+zzAllocFixed)
+	err := p.UnmarshalBinary(body)
+	zzBudgetCheck()
+	zzReach("many")
+	zzAssert(err == nil, "a valid frame with many list elements is rejected")
+	zzAssert(zzListLen(p) <= n, "the packet holds more list elements than the frame has bytes")
+	zzEmitU("lists", uint64(zzListLen(p)))
+}
